@@ -44,6 +44,7 @@ _PLACEHOLDER = re.compile(r"\x00AC\d+\x00")
 
 class C12(Prop):
     id = "C12"
+    once_kinds = ("growth", "nest")
     level = "exploration"
     rule = ("cases: (a) strings of 1..60 atoms drawn from 100 hostile atoms (delimiters, control characters, line-end mixes, "
             "container markers, tag / comment / footnote openers, NUL and a literal placeholder look-alike) x random option "
